@@ -2666,7 +2666,7 @@ func _return(n *node) {
 		n.exec = nil
 	case 1:
 		switch {
-		case !child[0].rval.IsValid() && child[0].kind == binaryExpr:
+		case !child[0].rval.IsValid() && child[0].kind == binaryExpr && child[0].findex == 0 && child[0].level == 0:
 			// No additional runtime operation is necessary for constants (not in frame) or
 			// binary expressions (stored directly at the right location in frame).
 			n.exec = nil
